@@ -1,4 +1,5 @@
 import HapVerif.Model.Waiters
+import HapVerif.Gen.Misc
 
 /-! # C19 - device waiters are woken by advertisements; advertisement parsing is robust -/
 
@@ -158,5 +159,13 @@ theorem C19_parse_mdns_no_usable_address (addrs : List (AddrKind × String)) (pr
       apply List.filter_eq_nil_iff.mpr
       intro a ha; simpa using h a ha
     simp [this]
+
+/-- tie to the source (regenerated on every run from `HomeKitAdvertisement.from_manufacturer_data`): the minimum
+    length 15, the optional setup hash from 19 bytes on, the byte ranges of type, status flags, device id, the packed
+    `<HHBB` block (category, state number, configuration number, compatible version) and the setup hash -/
+theorem C19_gen_tie :
+    Gen.Misc.bleAdvLenChecks = [("GtE", 19), ("Lt", 15)] ∧
+    Gen.Misc.bleAdvSlices = [(0, 1), (2, 3), (3, 9), (9, 15), (15, 19)] ∧
+    Gen.Misc.bleAdvUnpack = "<HHBB" := by decide
 
 end HapVerif.C19
